@@ -161,6 +161,7 @@ func configFor(mode, tier string, r *core.Rng) genCfg {
 		c.powerLossRate = 0
 	case "query":
 		c.roRate = 0.6
+		c.restartRate = 0.15 // queries right after a restart, before the new process has committed anything
 	}
 	// swarm: switch some things off entirely in a run
 	if r.Chance(0.3) {
